@@ -77,7 +77,8 @@ Done == st = "idle"
 Sh == ShapeOf(calls)
 Items == Sh.items
 G == Geom(Sh)
-TestMats == {<<1, 0, 0, 1, 12, -24>>, <<-1, 0, 0, 1, 0, 0>>, <<0, 1, -1, 0, 12, 0>>, <<2, 0, 12, 3, 0, 0>>, <<1, 1, 1, 1, 0, 0>>}
+TestMats == {<<-1, 0, 0, 1, 12, -24>>, <<0, 1, -1, 0, 12, 0>>, <<2, 0, 12, 3, 0, 0>>}
+Singular == <<1, 1, 1, 1, 0, 0>>
 StartsOn(items) == \A i \in 1..Len(items) : items[i].k = "c" /\ items[i].cl => (FirstOn(items[i].pts) = 1)
 
 ProtocolOK == Done => Sh.ok /\ WellFormed(Sh) /\ Exact(Sh)
@@ -94,7 +95,7 @@ ReverseLaws == Done =>
   /\ (StartsOn(Items) => Geom(Good(RevShape(Items))) = RevGeom(G))
   /\ RevGeom(RevGeom(G)) = G
   /\ Area60(RevGeom(G)) = -Area60(G)
-AffineLaws == Done => \A m \in TestMats :
+AffineLaws == Done => \A m \in TestMats \cup {Singular} :
   /\ Area60(Geom(Good(AffineShape(Items, m)))) = Det(m) * Area60(G)
   /\ (Det(m) # 0 => ShapeOf(AffineCalls(calls, m)) = Good(AffineShape(Items, m)))   \* a singular map may create coincidences
   /\ (Det(m) # 0 => Geom(Good(AffineShape(Items, m))) =
@@ -116,7 +117,7 @@ FillLaws == Done =>
   /\ \A i \in 1..Len(GeoFill(G)) : GeoFill(G)[i].k = "c" => GeoFill(G)[i].cl /\ EndOf(GeoFill(G)[i]) = GeoFill(G)[i].st
 
 (* ---- constant-level sanity of the arithmetic ---- *)
-ASSUME ComposeLaw == \A t \in TestMats, c \in TestMats, p \in {<<0, 0>>, <<12, 5>>, <<-7, 24>>} :
+ASSUME ComposeLaw == \A t \in TestMats \cup {Singular}, c \in TestMats \cup {Singular}, p \in {<<0, 0>>, <<12, 5>>, <<-7, 24>>} :
                         Apply(Compose(t, c), p) = Apply(t, Apply(c, p))
 ASSUME RoundLaw == \A K \in {2, 12} : \A v \in -40..40 :
                       LET r == RoundK(v, K) IN r % K = 0 /\ 2 * (r - v) <= K /\ 2 * (v - r) < K
